@@ -261,3 +261,83 @@ impl<E> Drop for CQueue<E> {
 
 #[cfg(test)]
 mod tests;
+
+// Verification hooks (read-only introspection and a constructor with an explicit
+// page size), compiled only with `--cfg petrichorit_des_verif`.
+#[cfg(petrichorit_des_verif)]
+pub mod verif {
+    pub use super::alloc::verif::AllocSnapshot;
+    pub use super::linked_list::verif::{BucketSnapshot, NodeSnapshot};
+    use super::{linked_list::EventNode, CQueue, CQueueLLAllocatorInner, DualLinkedList};
+    use std::{alloc::Layout, collections::VecDeque, time::Duration};
+
+    /// A read-only description of the complete queue state.
+    #[derive(Debug, Clone)]
+    pub struct Snapshot {
+        pub n: usize,
+        pub t_nanos: u128,
+        pub head: usize,
+        pub t0_nanos: u128,
+        pub t1_nanos: u128,
+        pub t_current_nanos: u128,
+        pub len: usize,
+        /// `(time, id)` of the zero-event bucket, in order.
+        pub zero: Vec<(u128, usize)>,
+        pub buckets: Vec<BucketSnapshot>,
+        pub alloc: AllocSnapshot,
+        /// `(size, align)` of a list node as requested from the allocator.
+        pub node_layout: (usize, usize),
+        /// `(size, align)` of a list node after the allocators rounding.
+        pub node_layout_rounded: (usize, usize),
+    }
+
+    impl<E> CQueue<E> {
+        /// Creates a queue whose allocator uses pages of `page_size` bytes.
+        #[must_use]
+        pub fn verif_with_page_size(n: usize, t: Duration, page_size: usize) -> Self {
+            let t_all = t.as_nanos() * n as u128;
+            let mut alloc = Box::new(CQueueLLAllocatorInner::with_page_size(page_size));
+            Self {
+                n,
+                t_nanos: t.as_nanos(),
+                t,
+                zero_event_bucket: VecDeque::with_capacity(64),
+                buckets: std::iter::repeat_with(|| DualLinkedList::new(alloc.handle()))
+                    .take(n)
+                    .collect(),
+                head: 0,
+                t_current: Duration::ZERO,
+                t0: Duration::ZERO,
+                t1: t,
+                t_all,
+                alloc,
+                event_id: 0,
+                len: 0,
+            }
+        }
+
+        /// Takes a snapshot; every pointer walk is bounded by `bound` steps.
+        #[must_use]
+        pub fn verif_snapshot(&self, bound: usize) -> Snapshot {
+            let layout = Layout::new::<EventNode<E>>();
+            Snapshot {
+                n: self.n,
+                t_nanos: self.t_nanos,
+                head: self.head,
+                t0_nanos: self.t0.as_nanos(),
+                t1_nanos: self.t1.as_nanos(),
+                t_current_nanos: self.t_current.as_nanos(),
+                len: self.len,
+                zero: self
+                    .zero_event_bucket
+                    .iter()
+                    .map(|(_, time, id)| (time.as_nanos(), *id))
+                    .collect(),
+                buckets: self.buckets.iter().map(|b| b.verif_snapshot(bound)).collect(),
+                alloc: self.alloc.verif_snapshot(bound),
+                node_layout: (layout.size(), layout.align()),
+                node_layout_rounded: CQueueLLAllocatorInner::verif_size_align(layout),
+            }
+        }
+    }
+}
